@@ -195,7 +195,10 @@ def gen_proc_case(rng):
         dt = rng.choice([0.0, 0.001, 0.01, 0.5, 1.0, 3.0, 1000.0])
         u, s, t = u + du, s + ds, t + dt
         blocking = rng.random() < 0.2
-        ops.append(dict(utime=u, stime=s, dt=dt, interval=(dt if blocking and dt > 0 else rng.choice([None, 0, 0.0]))))
+        # time the process did NOT use itself: CPU of children it reaped, time spent waiting for block I/O
+        other = [rng.choice([0, 0, rng.randrange(1, 5000)]) for _ in range(3)]
+        ops.append(dict(utime=u, stime=s, dt=dt, other=other,
+                        interval=(dt if blocking and dt > 0 else rng.choice([None, 0, 0.0]))))
     return dict(proc=True, ops=ops)
 
 
@@ -361,6 +364,12 @@ def run_proc_case(case, acc):
             pr = ps.Process(pid)
             prev = None
             nontrivial = False
+
+            def grow_other(op):
+                o = op.get("other") or (0, 0, 0)
+                p.cutime, p.cstime, p.blkio = p.cutime + o[0], p.cstime + o[1], p.blkio + o[2]
+                if any(o):
+                    acc.count("process_percent_with_child_or_iowait_growth")
             for i, op in enumerate(case["ops"]):
                 interval = op["interval"]
                 blocking = interval is not None and interval > 0
@@ -370,12 +379,14 @@ def run_proc_case(case, acc):
 
                     def bump(op=op):
                         p.utime, p.stime = op["utime"], op["stime"]
+                        grow_other(op)
                     clock.at(clock.t + interval / 2, bump)
                     got = pr.cpu_percent(interval=interval)
                     ref = before
                 else:
                     clock.advance(op["dt"])
                     p.utime, p.stime = op["utime"], op["stime"]
+                    grow_other(op)
                     got = pr.cpu_percent(interval=interval)
                     ref = prev
                 now = (p.utime, p.stime, clock.t)
